@@ -25,7 +25,9 @@ import builtins
 
 _BUILTINS = frozenset(n for n in dir(builtins) if not n.startswith("__")) | {"__import__", "__build_class__"}
 _MODULE_ALIASES = frozenset(("np", "numpy", "re", "io", "os", "sys", "math", "nx", "itertools", "functools", "copy", "operator", "warnings",
-                             "struct", "msgpack", "collections", "numbers", "abc", "enum", "string", "textwrap", "shlex", "json", "cython", "libc"))
+                             "struct", "msgpack", "collections", "json", "cython", "libc"))
+# (`string`, `numbers`, `enum` .. are left out: a local called `string` is ordinary, and what the tables say about those modules - their
+# functions build new immutable values - is true of a string as well)
 _DYNAMIC_NAMES = frozenset(("exec", "eval", "compile", "__import__", "locals", "vars", "globals", "setattr", "delattr", "breakpoint",
                             "memoryview", "super"))
 _DYNAMIC_MODULES = frozenset(("inspect", "operator", "ctypes", "gc", "importlib", "types", "weakref", "threading", "asyncio", "pickle", "marshal", "dis"))
